@@ -577,14 +577,20 @@ def escape(p):
     return p.replace(b"\\", b"\\\\").replace(b'"', b'\\"')
 
 
-def to_calls(doc, rng, start_flavours=True, explicit_eq=0.5, binary=0.0, trace=None):
+def to_calls(doc, rng, start_flavours=True, explicit_eq=0.5, binary=0.0, trace=None, qtrace=None):
     """A call list (harness/src/fam_writer.rs syntax) describing doc.  Only for documents without Param /
     Ghost / object tails (the writer API has no call for them).  start_flavours: pick write_start /
     write_object_start / write_array_start at random where each is legal; explicit_eq: probability of an
     explicit write_operator(Equal); binary: probability of routing a call through write_binary.
     trace: optional list that receives, per call, what expecting_key() must return afterwards
     (True after write_object_start and after a complete value in an object, False after a key, an
-    operator, a header, inside arrays and right after write_start / write_array_start)."""
+    operator, a header, inside arrays and right after write_start / write_array_start).
+    qtrace (wave 4): optional list that receives, per call, (at_unknown_start, at_array_value) as the
+    document structure dictates: at_unknown_start only right after write_start; at_array_value after an
+    element of an array whose kind is settled (write_array_start: from the first element on; write_start:
+    from the second scalar element on, or after a first element that is a container), after the first key
+    of an object that was opened with write_array_start (until its operator arrives), after every call of
+    the key-value part of a list, and after the write_end of a container that is an array element."""
     calls = []
 
     def via_bin(c):
@@ -608,10 +614,12 @@ def to_calls(doc, rng, start_flavours=True, explicit_eq=0.5, binary=0.0, trace=N
             return "bin:EQ"
         return c
 
-    def emit(c, ek):
+    def emit(c, ek, aa=False, au=False):
         calls.append(via_bin(c) if rng.random() < binary else c)
         if trace is not None:
             trace.append(ek)
+        if qtrace is not None:
+            qtrace.append((au, aa))
 
     def op_calls(op, force):
         if op is None or op == "=":
@@ -620,43 +628,46 @@ def to_calls(doc, rng, start_flavours=True, explicit_eq=0.5, binary=0.0, trace=N
         else:
             emit("op:%d" % OP_CODE[op], False)
 
-    def value(v, in_obj):
-        """in_obj: the value completes a field of an object (then a key is expected next)"""
+    def value(v, in_obj, aa_after=False):
+        """in_obj: the value completes a field of an object (then a key is expected next);
+        aa_after: at_array_value() once the value is complete (decided by the enclosing array)"""
         if isinstance(v, S):
-            emit(_scalar_call(v, rng), in_obj)
+            emit(_scalar_call(v, rng), in_obj, aa_after)
         elif isinstance(v, Hdr):
             if v.name == b"rgb" and isinstance(v.value, Arr) and not v.value.mixed and len(v.value.elems) in (3, 4) \
                     and all(isinstance(e, S) and e.raw.isdigit() and int(e.raw) < 2 ** 32 and str(int(e.raw)).encode() == e.raw for e in v.value.elems) and rng.random() < 0.6:
-                emit("rgb:" + ":".join(e.raw.decode() for e in v.value.elems), in_obj)
+                emit("rgb:" + ":".join(e.raw.decode() for e in v.value.elems), in_obj, aa_after)
             else:
                 emit("h:" + _hx(v.name), False)
-                value(v.value, in_obj)
+                value(v.value, in_obj, aa_after)
         elif isinstance(v, Obj):
             fl = rng.choice(["os", "os", "s", "as"]) if start_flavours else "os"
-            emit(fl, fl == "os")
-            fields(v.items, first_needs_explicit=(fl != "os"))
-            emit("e", in_obj)
+            emit(fl, fl == "os", False, fl == "s")
+            fields(v.items, first_needs_explicit=(fl != "os"), first_key_aa=(fl == "as"))
+            emit("e", in_obj, aa_after)
         else:
             fl = rng.choice(["as", "as", "s"]) if start_flavours else "as"
             # write_start decides array-ness only at the second call: legal for every array
-            emit(fl, False)
-            for e in v.elems:
-                value(e, False)
+            emit(fl, False, False, fl == "s")
+            cur = False
+            for i, e in enumerate(v.elems):
+                cur = fl == "as" or i >= 1 or not isinstance(e, S)
+                value(e, False, cur)
             if v.mixed:
-                emit("m", False)
+                emit("m", False, cur)
                 for e in v.mixed:
                     if isinstance(e, S):
-                        emit(_scalar_call(e, rng), False)
+                        emit(_scalar_call(e, rng), False, True)
                     else:
-                        emit(_scalar_call(e.key, rng), False)
-                        emit("op:%d" % OP_CODE[e.op or "="], False)
-                        value(e.value, False)
-            emit("e", in_obj)
+                        emit(_scalar_call(e.key, rng), False, True)
+                        emit("op:%d" % OP_CODE[e.op or "="], False, True)
+                        value(e.value, False, True)
+            emit("e", in_obj, aa_after)
 
-    def fields(items, first_needs_explicit=False):
+    def fields(items, first_needs_explicit=False, first_key_aa=False):
         first = True
         for it in items:
-            emit(_scalar_call(it.key, rng), False)
+            emit(_scalar_call(it.key, rng), False, first and first_key_aa)
             op_calls(it.op, first and first_needs_explicit)
             value(it.value, True)
             first = False
